@@ -112,7 +112,9 @@ fn main() {
         std::process::exit(2);
     }
     // panics inside simulated operations are data, not noise
-    std::panic::set_hook(Box::new(|_| {}));
+    if std::env::var("VERIF_PANIC_VERBOSE").is_err() {
+        std::panic::set_hook(Box::new(|_| {}));
+    }
     let code = match args[1].as_str() {
         "worker" => orch::worker_main(&args[2..]),
         "check" => orch::check_main(&args[2..]),
